@@ -16,8 +16,8 @@ var (
 		".hg_archival.txt", ".git", ".hg", ".svn", ".bzr"}
 	elCase = []string{"Cue.Mod", "CUE.MOD", "cue.Mod", "cue.moD", "Module.cue", "MODULE.CUE", "module.Cue", "License", "license",
 		"LICENSE.txt", "A", "B", "X.CUE", "ReadMe.MD", "Sub", "SUB", "K", "S", "I", "Local-Module.cue", "Vendor"}
-	elWin = []string{"con", "CON", "nul", "NUL.txt", "com1", "COM9.x", "lpt1", "LPT0", "com0", "aux", "prn.txt", "conx",
-		"con .txt", "Aux.tar.gz", "com¹", "a.con", "nul."}
+	elWin = append([]string{"LPT0", "com0", "conx", "con .txt", "Aux.tar.gz", "com¹", "a.con", "nul.", "COM10", "lpt", "co", "prn1"},
+		winVariants()...)
 	elDots = []string{".", "..", "...", "a.", "a..", "..a", ".a.", "", " ", "-", "-a"}
 	elBadASCII = []string{"a\\b", "a:b", "a*b", "a?b", "a<b", "a>b", "a|b", "a\"b", "a'b", "a`b", "a;b", "\x00", "a\x00b",
 		"a\x7fb", "a\tb", "a\nb", "C:", "\\", "..\\x", "a\\..\\b"}
@@ -29,6 +29,17 @@ var (
 	// longer than NAME_MAX: only used where no file system is involved (P cases)
 	elTooLong = []string{strings.Repeat("b", 300), strings.Repeat("é", 130), strings.Repeat("long/", 900) + "x"}
 )
+
+// every reserved Windows device name in three spellings
+func winVariants() []string {
+	var out []string
+	for _, n := range []string{"CON", "PRN", "AUX", "NUL", "COM1", "COM2", "COM3", "COM4", "COM5", "COM6", "COM7", "COM8", "COM9",
+		"LPT1", "LPT2", "LPT3", "LPT4", "LPT5", "LPT6", "LPT7", "LPT8", "LPT9"} {
+		l := strings.ToLower(n)
+		out = append(out, l, n+".txt", strings.ToUpper(l[:1])+l[1:]+".tar.gz")
+	}
+	return out
+}
 
 func genElem(r *common.Rng, hostile int) string {
 	// hostile in 0..100: probability (percent) of drawing from the odd pools
